@@ -10,6 +10,15 @@ open AsynqModel.Core (Val)
 @[simp] theorem enterMode_fst (s : St) : (enterMode s).1 = s.mode := rfl
 @[simp] theorem enterMode_mode (s : St) : (enterMode s).2.mode = true := rfl
 @[simp] theorem enterMode_log (s : St) : (enterMode s).2.log = s.log := rfl
+@[simp] theorem refusal_isBase (c : Call) : (refusal c).isBase = false := by
+  unfold refusal; first | rfl | (split <;> rfl)
+theorem refusal_cases (c : Call) : refusal c = .syncRefused ∨ refusal c = .other := by
+  unfold refusal; first | (exact .inl rfl) | (split <;> simp)
+@[simp] theorem syncStart_mode (c : Call) (s : St) : (syncStart c s).mode = s.mode := by
+  unfold syncStart; cases c.sfn <;> rfl
+theorem syncStart_log (c : Call) (s : St) :
+    (syncStart c s).log = (if c.sfn then [Ev.start c.label s.mode, Ev.sfn c.label] else [Ev.start c.label s.mode]) ++ s.log := by
+  unfold syncStart; cases c.sfn <;> rfl
 
 /-! ### the flag is restored by every evaluator (asynq side: never touched) -/
 
@@ -39,8 +48,8 @@ theorem bodyR_mode : ∀ (p : Prog) (gen : Bool) (t : Nat) (env : List Val) (cau
   | .sync c child k h, gen, t, env, caught, i, s => by
     unfold bodyR
     cases hm : s.mode
-    · have hc := bodyR_mode child c.kind.isGen c.label [] none 0 (s.emit (.start c.label false))
-      rcases hcs : bodyR c.kind.isGen c.label [] none 0 child (s.emit (.start c.label false)) with ⟨r, s1⟩
+    · have hc := bodyR_mode child c.kind.isGen c.label [] none 0 (syncStart c s)
+      rcases hcs : bodyR c.kind.isGen c.label [] none 0 child (syncStart c s) with ⟨r, s1⟩
       rw [hcs] at hc
       cases r with
       | ok v => simp; rw [bodyR_mode k]; simpa [hm] using hc
@@ -50,7 +59,7 @@ theorem bodyR_mode : ∀ (p : Prog) (gen : Bool) (t : Nat) (env : List Val) (cau
         · simpa [hm] using hc
         · rw [bodyR_mode h]; simpa [hm] using hc
       | esc v => simpa [hm] using hc
-    · simp [Err.isBase]
+    · simp
       rw [bodyR_mode h]; simp [hm]
 theorem ysR_mode : ∀ (y : Ys) (s : St), (ysR y s).2.mode = s.mode
   | .none, s => by simp [ysR]
@@ -104,8 +113,8 @@ theorem bodyA_mode : ∀ (p : Prog) (gen : Bool) (t : Nat) (env : List Val) (cau
   | .sync c child k h, gen, t, env, caught, i, s => by
     unfold bodyA
     cases hm : s.mode
-    · have hc := bodyR_mode child c.kind.isGen c.label [] none 0 (s.emit (.start c.label false))
-      rcases hcs : bodyR c.kind.isGen c.label [] none 0 child (s.emit (.start c.label false)) with ⟨r, s1⟩
+    · have hc := bodyR_mode child c.kind.isGen c.label [] none 0 (syncStart c s)
+      rcases hcs : bodyR c.kind.isGen c.label [] none 0 child (syncStart c s) with ⟨r, s1⟩
       rw [hcs] at hc
       cases r with
       | ok v => simp; rw [bodyA_mode k]; simpa [hm] using hc
@@ -115,7 +124,7 @@ theorem bodyA_mode : ∀ (p : Prog) (gen : Bool) (t : Nat) (env : List Val) (cau
         · simpa [hm] using hc
         · rw [bodyA_mode h]; simpa [hm] using hc
       | esc v => simpa [hm] using hc
-    · simp [Err.isBase]
+    · simp
       rw [bodyA_mode h]; simp [hm]
 theorem resolveA_mode : ∀ (y : Ys) (s : St), (resolveA y s).2.mode = s.mode
   | .none, s => by simp [resolveA]
@@ -188,8 +197,8 @@ theorem bodyR_noB : ∀ (p : Prog) (gen : Bool) (t : Nat) (env : List Val) (caug
     simp only [Prog.noRaiseB, Bool.and_eq_true] at hn
     unfold bodyR
     cases hm : s.mode
-    · have hy := bodyR_noB child c.kind.isGen c.label [] none 0 (s.emit (.start c.label false)) hn.1.1 rfl
-      rcases hR : bodyR c.kind.isGen c.label [] none 0 child (s.emit (.start c.label false)) with ⟨r, s1⟩
+    · have hy := bodyR_noB child c.kind.isGen c.label [] none 0 (syncStart c s) hn.1.1 rfl
+      rcases hR : bodyR c.kind.isGen c.label [] none 0 child (syncStart c s) with ⟨r, s1⟩
       rw [hR] at hy
       cases r with
       | ok v => simp; exact bodyR_noB k _ _ _ _ _ _ hn.1.2 hc
@@ -198,8 +207,8 @@ theorem bodyR_noB : ∀ (p : Prog) (gen : Bool) (t : Nat) (env : List Val) (caug
         simp only [Bool.false_eq_true, if_false, he]
         exact bodyR_noB h _ _ _ _ _ _ hn.2 (by simpa using he)
       | esc v => simp [Out.noB]
-    · simp [Err.isBase]
-      exact bodyR_noB h _ _ _ _ _ _ hn.2 rfl
+    · simp
+      exact bodyR_noB h _ _ _ _ _ _ hn.2 (by simp)
 theorem ysR_noB : ∀ (y : Ys) (s : St), y.noRaiseB = true → (ysR y s).1.noB = true
   | .none, _, _ => by simp [ysR, Out.noB]
   | .junk, _, _ => by simp [ysR, Out.noB, Err.isBase]
@@ -256,8 +265,8 @@ theorem bodyA_noB : ∀ (p : Prog) (gen : Bool) (t : Nat) (env : List Val) (caug
     simp only [Prog.noRaiseB, Bool.and_eq_true] at hn
     unfold bodyA
     cases hm : s.mode
-    · have hy := bodyR_noB child c.kind.isGen c.label [] none 0 (s.emit (.start c.label false)) hn.1.1 rfl
-      rcases hR : bodyR c.kind.isGen c.label [] none 0 child (s.emit (.start c.label false)) with ⟨r, s1⟩
+    · have hy := bodyR_noB child c.kind.isGen c.label [] none 0 (syncStart c s) hn.1.1 rfl
+      rcases hR : bodyR c.kind.isGen c.label [] none 0 child (syncStart c s) with ⟨r, s1⟩
       rw [hR] at hy
       cases r with
       | ok v => simp; exact bodyA_noB k _ _ _ _ _ _ hn.1.2 hc
@@ -266,8 +275,8 @@ theorem bodyA_noB : ∀ (p : Prog) (gen : Bool) (t : Nat) (env : List Val) (caug
         simp only [Bool.false_eq_true, if_false, he]
         exact bodyA_noB h _ _ _ _ _ _ hn.2 (by simpa using he)
       | esc v => simp [Out.noB]
-    · simp [Err.isBase]
-      exact bodyA_noB h _ _ _ _ _ _ hn.2 rfl
+    · simp
+      exact bodyA_noB h _ _ _ _ _ _ hn.2 (by simp)
 theorem resolveA_noB : ∀ (y : Ys) (s : St), y.noRaiseB = true → (resolveA y s).1.noB = true
   | .none, _, _ => by simp [resolveA, Out.noB]
   | .junk, _, _ => by simp [resolveA, Out.noB, Err.isBase]
@@ -427,7 +436,7 @@ end
 /-- every event a correct asynq-side run may log -/
 def evOkR (e : Ev) : Bool := dcOk e && modeSeen false e && syncAllowedOk e && noBad e
 /-- every event a correct asyncio-side run may log -/
-def evOkA (e : Ev) : Bool := dcOk e && modeSeen true e && syncRefusedOk e && noBad e
+def evOkA (e : Ev) : Bool := dcOk e && modeSeen true e && syncFailedOk e && noBad e
 
 /-- `s2` extends the log of `s` by events that all satisfy `ok`, among them the end of every task in `labs` -/
 def Ext (ok : Ev → Bool) (labs : List Nat) (s s2 : St) : Prop :=
@@ -474,6 +483,11 @@ theorem Ext.all {ok : Ev → Bool} {a : List Nat} {s s2 : St} (h : Ext ok a s s2
     s2.log.all ok = true := by
   obtain ⟨l, e, o, _⟩ := h
   rw [e, List.all_append, o, h0]; rfl
+
+/-- a plain synchronous call that is not refused (flag off) starts its callee: `sfn` (if declared with sync_fn) and `start` -/
+theorem syncStart_ext (c : Call) (s : St) (hm : s.mode = false) : Ext evOkR [] s (syncStart c s) := by
+  refine ⟨if c.sfn then [Ev.start c.label s.mode, Ev.sfn c.label] else [Ev.start c.label s.mode], syncStart_log c s, ?_, by simp⟩
+  cases c.sfn <;> simp [hm, evOkR, dcOk, modeSeen, syncAllowedOk, noBad]
 
 /-- number of synchronous calls attempted so far -/
 def St.nSync (s : St) : Nat := s.log.countP isSyncX
@@ -569,9 +583,9 @@ theorem bodyR_good : ∀ (p : Prog) (gen : Bool) (t : Nat) (env : List Val) (cau
     unfold bodyR
     simp only [hm, Bool.false_eq_true, if_false]
     have hst : evOkR (.start c.label false) = true := rfl
-    obtain ⟨hf, hx⟩ := bodyR_good child c.kind.isGen c.label [] none 0 (s.emit (.start c.label false)) (by simp [hm]) (by simp)
-    have h2 := bodyR_mode child c.kind.isGen c.label [] none 0 (s.emit (.start c.label false))
-    rcases hR : bodyR c.kind.isGen c.label [] none 0 child (s.emit (.start c.label false)) with ⟨r, s1⟩
+    obtain ⟨hf, hx⟩ := bodyR_good child c.kind.isGen c.label [] none 0 (syncStart c s) (by simp [hm]) (by simp)
+    have h2 := bodyR_mode child c.kind.isGen c.label [] none 0 (syncStart c s)
+    rcases hR : bodyR c.kind.isGen c.label [] none 0 child (syncStart c s) with ⟨r, s1⟩
     rw [hR] at hf hx h2
     simp only at hf hx h2
     have hm1 : s1.mode = false := by rw [h2]; simp [hm]
@@ -581,7 +595,7 @@ theorem bodyR_good : ∀ (p : Prog) (gen : Bool) (t : Nat) (env : List Val) (cau
       | err e => cases e <;> simp_all [evOkR, dcOk, modeSeen, syncAllowedOk, noBad, Out.fine]
       | esc v => simp [Out.fine] at hf
     have hx1 : Ext evOkR [] s (s1.emit (.syncX t r)) :=
-      (((Ext.emit s hst).trans hx).trans (Ext.emit s1 hev)).weaken (by simp)
+      (((syncStart_ext c s hm).trans hx).trans (Ext.emit s1 hev)).weaken (by simp)
     cases r with
     | ok v =>
       obtain ⟨hf', hx'⟩ := bodyR_good k gen t (env ++ [v]) caught i (s1.emit (.syncX t (.ok v))) (by simp [hm1]) hc
@@ -681,7 +695,7 @@ theorem bodyA_good : ∀ (p : Prog) (gen : Bool) (t : Nat) (env : List Val) (cau
       | ok v =>
         simp only [Bool.not_true, Bool.false_eq_true, if_false]
         have hev : evOkA (.run t (i + 1) (s1.dc (Ys.labelsA y)) s1.mode (.ok v)) = true := by
-          simp [evOkA, dcOk, modeSeen, syncRefusedOk, noBad, hd, hm1]
+          simp [evOkA, dcOk, modeSeen, syncFailedOk, noBad, hd, hm1]
         obtain ⟨hf', hx'⟩ := bodyA_good k true t (env ++ [v]) caught (i + 1) (s1.emit (.run t (i + 1) (s1.dc (Ys.labelsA y)) s1.mode (.ok v)))
           (by simp [hm1])
         exact ⟨hf', ((hx.trans (Ext.emit s1 hev)).trans hx').weaken (by simp)⟩
@@ -690,17 +704,17 @@ theorem bodyA_good : ∀ (p : Prog) (gen : Bool) (t : Nat) (env : List Val) (cau
         split
         · exact ⟨rfl, (hx.trans (Ext.emitFin s1 t _ rfl)).weaken (by simp)⟩
         · have hev : evOkA (.run t (i + 1) (s1.dc (Ys.labelsA y)) s1.mode (.err e)) = true := by
-            simp [evOkA, dcOk, modeSeen, syncRefusedOk, noBad, hd, hm1]
+            simp [evOkA, dcOk, modeSeen, syncFailedOk, noBad, hd, hm1]
           obtain ⟨hf', hx'⟩ := bodyA_good h true t env (some e) (i + 1) (s1.emit (.run t (i + 1) (s1.dc (Ys.labelsA y)) s1.mode (.err e)))
             (by simp [hm1])
           exact ⟨hf', ((hx.trans (Ext.emit s1 hev)).trans hx').weaken (by simp)⟩
       | esc v => simp [Out.noEsc] at hf
   | .sync c child k h, gen, t, env, caught, i, s, hm => by
     unfold bodyA
-    simp only [hm, if_true, Err.isBase, Bool.false_eq_true, if_false]
-    have hev : evOkA (.syncX t (.err .syncRefused)) = true := by
-      simp [evOkA, dcOk, modeSeen, syncRefusedOk, noBad]
-    obtain ⟨hf', hx'⟩ := bodyA_good h gen t env (some .syncRefused) i (s.emit (.syncX t (.err .syncRefused))) (by simp [hm])
+    simp only [hm, if_true, refusal_isBase, Bool.false_eq_true, if_false]
+    have hev : evOkA (.syncX t (.err (refusal c))) = true := by
+      rcases refusal_cases c with hr | hr <;> rw [hr] <;> simp [evOkA, dcOk, modeSeen, syncFailedOk, noBad]
+    obtain ⟨hf', hx'⟩ := bodyA_good h gen t env (some (refusal c)) i (s.emit (.syncX t (.err (refusal c)))) (by simp [hm])
     exact ⟨hf', ((Ext.emit s hev).trans hx').weaken (by simp)⟩
 theorem resolveA_good : ∀ (y : Ys) (s : St), s.mode = true →
     (resolveA y s).1.noEsc = true ∧ Ext evOkA (Ys.labelsA y) s (resolveA y s).2
